@@ -201,6 +201,17 @@ func runEVT(w *World, f *Func, r evtRule) []evtFinding {
 	info := f.Pkg.TypesInfo
 	g := cfg.New(f.Body, noReturnCall(info))
 	// the label of the function's first statement, if any (target of tail self-jumps)
+	// a top-level `for {` without condition that nothing breaks out of (the function leaves it by return only)
+	var restartLoop *ast.ForStmt
+	for _, st := range f.Body.List {
+		fs, ok := st.(*ast.ForStmt)
+		if !ok || fs.Cond != nil || fs.Init != nil || fs.Post != nil {
+			continue
+		}
+		if !breaksOutOf(fs) {
+			restartLoop = fs
+		}
+	}
 	// a top-level label that is only ever jumped to from below it (a restart point)
 	var entryLabel *ast.LabeledStmt
 	for _, st := range f.Body.List {
@@ -457,6 +468,36 @@ func runEVT(w *World, f *Func, r evtRule) []evtFinding {
 						}
 					}
 				}
+			}
+			// `for { … continue … }` at the top level of the function, left only by return: the same iteration-as-restart
+			// written as a loop (see the goto case above): the back edge ends an activation
+			if restartLoop != nil && succ.Stmt == ast.Stmt(restartLoop) && succ.Kind == cfg.KindForBody && (succ.Index <= b.Index) {
+				at := ast.Node(restartLoop)
+				if len(b.Nodes) > 0 {
+					at = b.Nodes[len(b.Nodes)-1]
+				}
+				if r.prim != nil {
+					if evs := r.prim(&pseudo{"SELFCALL", restartLoop}); len(evs) > 0 {
+						st2 = apply(st2, evs, at)
+					}
+				}
+				if r.ret != nil {
+					synth := &ast.ReturnStmt{Return: at.End()}
+					for full := range st2 {
+						st, _ := splitState(full)
+						if msg := r.ret(st, synth, "relay"); msg != "" {
+							report(at, msg)
+						}
+					}
+				}
+				if !in[succ.Index][r.start] {
+					in[succ.Index][r.start] = true
+					if !queued[succ.Index] {
+						queued[succ.Index] = true
+						work = append(work, succ.Index)
+					}
+				}
+				continue
 			}
 			if (succ.Kind == cfg.KindRangeLoop || succ.Kind == cfg.KindForLoop || (succ.Kind == cfg.KindForBody && isLoopHead(succ))) && r.prim != nil {
 				kind := "ENTERLOOP"
@@ -729,4 +770,48 @@ func isGotoEdge(w *World, b *cfg.Block, label *ast.LabeledStmt) bool {
 	}
 	last := b.Nodes[len(b.Nodes)-1]
 	return last.Pos() > label.Pos()
+}
+
+// breaksOutOf: a break (unlabelled, not inside a nested loop/switch/select; or labelled) can leave the loop.
+func breaksOutOf(loop *ast.ForStmt) bool {
+	out := false
+	var walk func(n ast.Node, nested bool)
+	walk = func(n ast.Node, nested bool) {
+		ast.Inspect(n, func(q ast.Node) bool {
+			if out || q == nil {
+				return false
+			}
+			switch x := q.(type) {
+			case *ast.FuncLit:
+				return false
+			case *ast.BranchStmt:
+				if x.Tok == token.BREAK && (x.Label != nil || !nested) {
+					out = true
+				}
+				if x.Tok == token.GOTO {
+					out = true
+				}
+			case *ast.ForStmt:
+				if q != n {
+					walk(x.Body, true)
+					return false
+				}
+			case *ast.RangeStmt:
+				walk(x.Body, true)
+				return false
+			case *ast.SwitchStmt:
+				walk(x.Body, true)
+				return false
+			case *ast.TypeSwitchStmt:
+				walk(x.Body, true)
+				return false
+			case *ast.SelectStmt:
+				walk(x.Body, true)
+				return false
+			}
+			return true
+		})
+	}
+	walk(loop.Body, false)
+	return out
 }
